@@ -274,6 +274,17 @@ func bundleGen(args []string) error {
 				}
 				e.Hdrs = append(e.Hdrs, he)
 			}
+			// rare but representable header maps: names that collide once lower-cased (with other names around them, so that
+			// the colliding entries need not be neighbours), a literal ":status", an empty name
+			switch r.Intn(14) {
+			case 0:
+				e.Hdrs = append(e.Hdrs, hent{N: ints([]byte("X-Test")), Vs: [][]int{ints([]byte("a"))}}, hent{N: ints([]byte("x-test")), Vs: [][]int{ints([]byte("b"))}},
+					hent{N: ints([]byte("A-First")), Vs: [][]int{ints([]byte("1"))}}, hent{N: ints([]byte("Y-Between")), Vs: [][]int{ints([]byte("2"))}}, hent{N: ints([]byte("Zz-Last")), Vs: [][]int{ints([]byte("3"))}})
+			case 1:
+				e.Hdrs = append(e.Hdrs, hent{N: ints([]byte(":status")), Vs: [][]int{ints([]byte("200"))}}, hent{N: ints([]byte("A-First")), Vs: [][]int{ints([]byte("1"))}}, hent{N: ints([]byte("Zz-Last")), Vs: [][]int{ints([]byte("3"))}})
+			case 2:
+				e.Hdrs = append(e.Hdrs, hent{N: []int{}, Vs: [][]int{ints([]byte("value of the empty name"))}})
+			}
 			sort.Slice(e.Hdrs, func(a, c int) bool { return string(unints(e.Hdrs[a].N)) < string(unints(e.Hdrs[c].N)) })
 			bl := bodyLens[r.Intn(len(bodyLens))]
 			if (thorough || i%8 == 0) && r.Intn(6) == 0 {
